@@ -254,7 +254,10 @@ pub fn input_event(n: u64) -> Vec<u8> {
     b
 }
 
-struct InputRun;
+struct InputRun {
+    /// long stream: many hundreds of events, so that counters kept per event wrap
+    long: bool,
+}
 
 impl TransportFn<()> for InputRun {
     fn call<T: Transport + 'static>(self, t: T) {
@@ -266,7 +269,7 @@ impl TransportFn<()> for InputRun {
             }
         };
         with(|w| w.check_no_lost_wakeup("input-new"));
-        let n_ops = 10 + choose(120);
+        let n_ops = if self.long { 700 + choose(900) } else { 10 + choose(120) };
         let mut total = 0u64;
         let mut fetched = std::collections::VecDeque::new();
         for _ in 0..n_ops {
@@ -334,6 +337,15 @@ impl TransportFn<()> for InputRun {
 }
 
 pub fn input_run() {
+    input(false)
+}
+
+/// Several hundred events in one run (bursts of every size between drains).
+pub fn input_long() {
+    input(true)
+}
+
+fn input(long: bool) {
     let tk = [TKind::Model, TKind::ModelLegacy, TKind::MmioModern, TKind::Pci, TKind::ModelPciLike][choose(5) as usize];
     crate::scen::queue::draw_device_policy();
     crate::scen::queue::draw_sharing_mode();
@@ -348,7 +360,7 @@ pub fn input_run() {
         w.dev = Some(Box::new(d));
     });
     oplog(|| format!("VirtIOInput over {tk:?} features {feats:#x} policy {:?}", with(|w| (w.cfg.serve, w.cfg.suppress, w.cfg.in_order))));
-    if let Err(e) = zoo::with_transport(tk, InputRun) {
+    if let Err(e) = zoo::with_transport(tk, InputRun { long }) {
         violation("transport-construction-failed", "zoo", e);
     }
 }
